@@ -233,7 +233,7 @@ class Gen:
                 ms.append(("value", rvalue(r)))
             return with_id(r, [("method", "change"), ("params", obj(*ms))])
         if k == "fetch":
-            fid = r.choice(["f1", "f2", 1, 2, "all", 3.5]) if r.random() < 0.9 else r.choice([None, True, [1]])
+            fid = r.choice(["f1", "f2", 1, 2, "all", 3.5, 3.25, 3, 2.5, 1727696123456, 1727696123999]) if r.random() < 0.9 else r.choice([None, True, [1]])
             ms = []
             if fid is not None or r.random() < 0.5:
                 ms.append(("id", fid))
